@@ -8,4 +8,5 @@ let () =
   | _ :: "meta-check" :: _ -> Meta_suite.run ()
   | _ :: "parseq-check" :: _ -> Parseq_suite.run ()
   | _ :: "async-check" :: _ -> Async_suite.run ()
+  | _ :: "pool-check" :: _ -> Pool_suite.run ()
   | _ -> prerr_endline "usage: driver <suite>-check < lines"; exit 2
